@@ -489,7 +489,8 @@ PROPS = {
                 "directives cut into included files of 25-150). "
                 "class = (outcome, placeholder kind, number of placeholder fields per side, replaced/kept, sizes, generator kinds).",
         "assumptions": ["scores closer than 1e-9 relative are treated as ties the float evaluation may break either way",
-                        "every score the code computes is finite (logarithms of positive ratios), so the first candidate always beats -Inf"],
+                        "every score the code computes is finite (logarithms of positive ratios), so the first candidate always beats -Inf",
+                        "translated lib/syntax/bayes (FactsAgree/TransBayes*.lean): float64 is UNINTERPRETED (Syn.F64: math.Inf, math.Log, float64(n), + / > as a record; the theorems hold for every interpretation, inferAccount/Infer for every Scorer; with the code's own score function they assume FiniteScores: every candidate's score is above -Inf); maps are association lists with every key once, a nil map reads as empty (the zero bayes.Model, whose first store panics in Go, is not covered: goModel only yields what NewModel/Update produce); map iteration orders are parameters (one per call site and round; the theorems quantify over every order that lists each key once); string = bytes; that the write t.Bookings[i].Credit = a shows through other slices sharing the array (commands.parseAndInfer) is outside the translated result"],
     },
     "C18": {
         "lean": ["Knut.Properties.C18"],
